@@ -154,6 +154,111 @@ def ntreeLine (ts : Option (List NTree)) : String :=
   | none => "error"
   | some ts => "ok " ++ printForest ts
 
+
+/-! ## analysis commands -/
+
+def parseRat (s : String) : Option Rat :=
+  match s.splitOn "/" with
+  | [a, b] => do
+    let n ← a.toInt?
+    let d ← b.toNat?
+    if d == 0 then none else some ((n : Rat) / (d : Rat))
+  | [a] => a.toInt?.map (fun n => (n : Rat))
+  | _ => none
+
+def showRat (r : Rat) : String := s!"{r.num}/{r.den}"
+
+def parseRatList (s : String) : Option (List Rat) :=
+  if s == "-" || s == "" then some [] else (s.splitOn ",").mapM parseRat
+
+/-- points `c0.c1.c2.w;…` (coordinates rational, weight rational or `nan` = weight 0) -/
+def parsePts (s : String) : Option (List Pt) :=
+  if s == "-" || s == "" then some [] else
+  (s.splitOn ";").mapM fun e => do
+    let parts := e.splitOn "|"
+    match parts.reverse with
+    | w :: cs => do
+      let pos ← cs.reverse.mapM parseRat
+      let wt ← if w == "nan" then some (0 : Rat) else parseRat w
+      pure { pos := pos, w := wt }
+    | [] => none
+
+def doMoments (m : List (String × String)) : Option (List String) := do
+  let nd ← (← look m "nd").toNat?
+  let ps ← parsePts (← look m "pts")
+  let dir ← parseRatList ((look m "dir").getD "-")
+  if Mom.mom0 ps == 0 then some ["undefined mom0=0", "end"] else
+  let m1 := (List.range nd).map (Mom.mom1 ps)
+  let m2 := (List.range nd).map fun i => (List.range nd).map fun j => Mom.mom2 ps i j
+  let along := if dir.isEmpty || Mom.dot dir dir == 0 then "-" else showRat (Mom.mom2Along ps nd dir)
+  some [ s!"mom0 {showRat (Mom.mom0 ps)}",
+         s!"mom1 {",".intercalate (m1.map showRat)}",
+         s!"mom2 {";".intercalate (m2.map fun r => ",".intercalate (r.map showRat))}",
+         s!"along {along}", s!"count {Mom.count ps}", "end" ]
+
+def doPPV (m : List (String × String)) : Option (List String) := do
+  let vaxis ← (← look m "vaxis").toNat?
+  let ps ← parsePts (← look m "pts")
+  if vaxis > 2 then none else
+  if Mom.mom0 ps == 0 then some ["undefined mom0=0", "end"] else
+  some [ s!"sigsum {showRat (PPV.sigmaSqSum ps vaxis)}", s!"sigprod {showRat (PPV.sigmaSqProd ps vaxis)}",
+         s!"vrmssq {showRat (PPV.vrmsSq ps vaxis)}",
+         s!"xcen {showRat (PPV.xCen ps vaxis)}", s!"ycen {showRat (PPV.yCen ps vaxis)}", s!"vcen {showRat (PPV.vCen ps vaxis)}",
+         s!"area {PPV.areaExact ps vaxis}", "end" ]
+
+def doPP (m : List (String × String)) : Option (List String) := do
+  let ps ← parsePts (← look m "pts")
+  if Mom.mom0 ps == 0 then some ["undefined mom0=0", "end"] else
+  some [ s!"sigsum {showRat (PPV.ppSigmaSqSum ps)}", s!"sigprod {showRat (PPV.ppSigmaSqProd ps)}",
+         s!"xcen {showRat (Mom.mom1 ps 1)}", s!"ycen {showRat (Mom.mom1 ps 0)}", s!"area {Mom.count ps}", "end" ]
+
+def doWrap (m : List (String × String)) : Option (List String) := do
+  let n ← (← look m "n").toNat?
+  let xs ← parseRatList (← look m "xs")
+  some [ s!"wrapped {",".intercalate ((Catalog.wrapAxis n xs).map showRat)}", "end" ]
+
+def parseFamily (s : String) : Option Family :=
+  match s with
+  | "fnu" => some .fnu | "flambda" => some .flambda | "surf" => some .surf
+  | "perbeam" => some .perBeam | "temp" => some .temp | _ => none
+
+def parseDim (s : String) : Option (Option Flux.Dim) :=
+  match s with
+  | "-" => some none
+  | "fnu" => some (some .fnu) | "flambda" => some (some .flambda) | "surf" => some (some .surf)
+  | "perbeam" => some (some .perBeam) | "temp" => some (some .temp) | "angle" => some (some .angle)
+  | "length" => some (some .length) | "freq" => some (some .freq) | "other" => some (some .other)
+  | _ => none
+
+def doFlux (m : List (String × String)) : Option (List String) := do
+  let fam ← parseFamily (← look m "fam")
+  let vals ← parseRatList (← look m "vals")
+  let scale ← parseRat (← look m "scale")
+  let out ← parseRat (← look m "out")
+  let g := fun k => (look m k).bind parseRat |>.getD 0
+  let K : Consts := { c := g "c", kB := g "kb", pi := g "pi", ln2 := g "ln2", jy := g "jy" }
+  let mt : FMeta := { lam := g "lam", pix := g "pix", bmaj := g "bmaj", bmin := g "bmin" }
+  if out == 0 || K.jy == 0 then none else
+  some [ s!"total {showRat (Flux.total K fam mt vals scale out)}", "end" ]
+
+def outcomeName : Flux.Outcome → String
+  | .ok => "ok" | .wavelengthDim => "wavelength-dim" | .wavelengthMissing => "wavelength-missing"
+  | .spatialDim => "spatial-dim" | .spatialMissing => "spatial-missing"
+  | .bmajDim => "bmaj-dim" | .bmajMissing => "bmaj-missing" | .bminDim => "bmin-dim" | .bminMissing => "bmin-missing"
+  | .unsupported => "unsupported" | .outputUnit => "output-unit"
+
+def doFluxErr (m : List (String × String)) : Option (List String) := do
+  let inp ← (← parseDim (← look m "in"))
+  let out ← (← parseDim (← look m "out"))
+  let md : Flux.MetaDims := { wavelength := ← parseDim (← look m "w"), spatial := ← parseDim (← look m "s"),
+                              bmaj := ← parseDim (← look m "a"), bmin := ← parseDim (← look m "b") }
+  some [ s!"outcome {outcomeName (Flux.outcome inp md out)}", "end" ]
+
+def simple (s : Sess) (r : Option (List String)) (name : String) : Sess × List String :=
+  match r with
+  | some out => (s, out)
+  | none => (s, [s!"bad-op {name}", "end"])
+
 def handle (s : Sess) (line : String) : Sess × List String :=
   let ws := (line.trimAscii.toString.splitOn " ").filter (· != "")
   match ws with
@@ -174,6 +279,12 @@ def handle (s : Sess) (line : String) : Sess × List String :=
     | some (s', out) => (s', out)
     | none => (s, ["bad-op reload", "end"])
   | ["obs"] => (s, obsBlock s)
+  | "moments" :: rest => simple s (doMoments (kvs rest)) "moments"
+  | "ppv" :: rest => simple s (doPPV (kvs rest)) "ppv"
+  | "pp" :: rest => simple s (doPP (kvs rest)) "pp"
+  | "wrap" :: rest => simple s (doWrap (kvs rest)) "wrap"
+  | "flux" :: rest => simple s (doFlux (kvs rest)) "flux"
+  | "fluxerr" :: rest => simple s (doFluxErr (kvs rest)) "fluxerr"
   | ["newick", txt] =>
     (s, [ "impl " ++ ntreeLine (parseImpl txt), "descent " ++ ntreeLine (parseDescent txt), "end" ])
   | _ => (s, ["bad-op unknown", "end"])
